@@ -105,7 +105,8 @@ LEVEL_TEXT = ("Machine-checked theorems (Coq 8.16, closed under the global conte
               "and in order (C07_action_table), the model's ValueRange constants and predicates are the source's for every "
               "range (C07_range_consts_table, C07_range_preds_table), Build.arg_build IS the interpreter of the table for "
               "every argument (C07_arg_build_table, C07_built_takes_value_table), args_override_self is a global setting "
-              "that holds at every level below (C07_args_override_self_global) and propagate_subcommand is the table's "
+              "that holds at every level below (C07_args_override_self_global; C07_args_override_self_every_built_level in the real "
+              "build order, any depth) and propagate_subcommand is the table's "
               "function (C07_settings_propagate_table); Gen/BuildTables.v: the generated --help/--version arguments and help "
               "subcommand and the whole _check_help_and_version step (C07_generated_args_table, C07_help_version_table), the "
               "order of the steps of Command::_build_self, of its argument loop, and the deprecated command-level rules "
